@@ -528,6 +528,212 @@ pub fn run(out_prefix: &str, shards: usize, family: &str, seed: u64, scale: usiz
                 });
             }
         }
+        // replace_all in all its forms (C12)
+        "replace" => {
+            let mut rg = gen::rng(seed, 0xCA11_0004);
+            // exhaustive small: byte and str variants, every stop position
+            let u8pool: &[u8] = &[b'a', 0xC3, 0xA9];
+            let small = gen::family(u8pool, 2, 2);
+            let strs: Vec<Vec<u8>> = gen::all_hays(u8pool, 4)
+                .into_iter()
+                .filter(|h| std::str::from_utf8(h).is_ok())
+                .collect();
+            let bhays = gen::all_hays(b"ab", 3);
+            for (pi, pats) in small.iter().enumerate() {
+                if pats.is_empty() || (scale < 2 && pi % 3 != 0) {
+                    continue;
+                }
+                for &mk in &f.mks {
+                    let repr = ["top-auto", "nc", "c", "dfa"][pi % 4];
+                    let c = Ctx::new(pats, mk, repr);
+                    let rep: Vec<String> = (0..pats.len()).map(|k| ["", "X", "\u{e9}y"][(k + pi) % 3].to_string()).collect();
+                    let repb: Vec<Vec<u8>> = rep.iter().map(|x| x.as_bytes().to_vec()).collect();
+                    with_ctx(&mut out, &mut stats, &c, &mut |r, s| {
+                        for h in &strs {
+                            let hs = std::str::from_utf8(h).unwrap();
+                            ev_replace_str(r, s, hs, &rep, 0, true);
+                            for stop in 0..=2 {
+                                ev_replace_str(r, s, hs, &rep, stop, false);
+                            }
+                            ev_replace_bytes(r, s, h, &repb, 0);
+                            r.flush(h, (0, h.len()));
+                        }
+                    });
+                    let pb: Pats = pats.iter().map(|p| p.iter().map(|&b| if b == b'a' { b'a' } else { b'b' }).collect()).collect();
+                    let c2 = Ctx::new(&pb, mk, repr);
+                    with_ctx(&mut out, &mut stats, &c2, &mut |r, s| {
+                        for h in &bhays {
+                            ev_replace_all_bytes(r, s, h, &repb);
+                            for stop in 0..=3 {
+                                ev_replace_bytes(r, s, h, &repb, stop);
+                            }
+                            r.flush(h, (0, h.len()));
+                        }
+                    });
+                }
+            }
+            // random: multi-byte characters split by byte patterns, empty pattern, ci
+            let chars = ["a", "b", "\u{e9}", "\u{20ac}", "\u{1F600}", "Z", "\u{df}"];
+            for i in 0..(40 * scale) {
+                let mut pats: Pats = vec![];
+                let n = rg.gen_range(1..=5);
+                for _ in 0..n {
+                    let ch = chars[rg.gen_range(0..chars.len())].as_bytes();
+                    let p: Vec<u8> = match rg.gen_range(0..6) {
+                        0 => vec![],
+                        1 => ch.to_vec(),
+                        2 => ch[..rg.gen_range(0..=ch.len())].to_vec(),
+                        3 => ch[rg.gen_range(0..ch.len())..].to_vec(),
+                        4 => {
+                            let mut v = ch.to_vec();
+                            v.extend_from_slice(chars[rg.gen_range(0..chars.len())].as_bytes());
+                            v
+                        }
+                        _ => {
+                            let c2 = chars[rg.gen_range(0..chars.len())].as_bytes();
+                            let mut v = ch[ch.len() - 1..].to_vec();
+                            v.extend_from_slice(&c2[..1]);
+                            v
+                        }
+                    };
+                    pats.push(p);
+                }
+                let mk = f.mks[rg.gen_range(0..f.mks.len())];
+                let mut c = Ctx::new(&pats, mk, REPRS_ALL[i % REPRS_ALL.len()]);
+                c.ci = rg.gen_range(0..4) == 0;
+                c.sk = if rg.gen_bool(0.5) { "both" } else { "unanchored" };
+                let rep: Vec<String> = (0..pats.len())
+                    .map(|_| (0..rg.gen_range(0..3)).map(|_| chars[rg.gen_range(0..chars.len())]).collect::<String>())
+                    .collect();
+                let repb: Vec<Vec<u8>> = rep.iter().map(|x| x.as_bytes().to_vec()).collect();
+                let hays: Vec<String> = (0..8)
+                    .map(|_| (0..rg.gen_range(0..12)).map(|_| chars[rg.gen_range(0..chars.len())]).collect::<String>())
+                    .collect();
+                with_ctx(&mut out, &mut stats, &c, &mut |r, s| {
+                    for h in &hays {
+                        ev_replace_str(r, s, h, &rep, 0, true);
+                        ev_replace_str(r, s, h, &rep, rg.gen_range(0..4), false);
+                        ev_replace_all_bytes(r, s, h.as_bytes(), &repb);
+                        ev_replace_bytes(r, s, h.as_bytes(), &repb, rg.gen_range(0..4));
+                        r.flush(h.as_bytes(), (0, h.len()));
+                    }
+                });
+            }
+        }
+        // span locality (C10): the call on (hay, span), on a copy whose bytes
+        // outside the span are replaced (by bytes that would create matches
+        // straddling the boundary), and on the sub-slice
+        "span" => {
+            let mut rg = gen::rng(seed, 0xCA11_0005);
+            let mut span_triple = |r: &mut Rec, s: &Searcher, c: &Ctx, h: &[u8], sp: (usize, usize), rg: &mut rand::rngs::StdRng| {
+                all_flavours(r, s, c, f, h, sp);
+                if sp.0 <= sp.1 {
+                    let mut m = h.to_vec();
+                    let alpha = gen::alphabet_of(&c.pats, c.ci);
+                    for (i, b) in m.iter_mut().enumerate() {
+                        if i < sp.0 || i >= sp.1 {
+                            *b = alpha[rg.gen_range(0..alpha.len())];
+                        }
+                    }
+                    // plant a pattern across each boundary
+                    if !c.pats.is_empty() {
+                        let p = &c.pats[rg.gen_range(0..c.pats.len())];
+                        if p.len() >= 2 {
+                            let k = rg.gen_range(1..p.len());
+                            // ends inside: starts k bytes before sp.0
+                            if sp.0 >= k {
+                                for j in 0..k { m[sp.0 - k + j] = p[j]; }
+                            }
+                            // starts inside: continues after sp.1
+                            for j in 0..(p.len() - k) {
+                                if sp.1 + j < m.len() { m[sp.1 + j] = p[k + j]; }
+                            }
+                        }
+                    }
+                    all_flavours(r, s, c, f, &m, sp);
+                    let sub = h[sp.0..sp.1].to_vec();
+                    all_flavours(r, s, c, f, &sub, (0, sub.len()));
+                }
+            };
+            // exhaustive small
+            let hays = gen::all_hays(b"ab", 3);
+            for (pi, pats) in gen::family(b"ab", 2, 2).iter().enumerate() {
+                if scale < 2 && pi % 2 == 1 {
+                    continue;
+                }
+                for &mk in &f.mks {
+                    let c = Ctx::new(pats, mk, ["nc", "top-auto", "c", "dfa"][pi % 4]);
+                    with_ctx(&mut out, &mut stats, &c, &mut |r, s| {
+                        for h in &hays {
+                            for sp in gen::all_spans(h.len()) {
+                                span_triple(r, s, &c, h, sp, &mut rg);
+                            }
+                        }
+                    });
+                }
+            }
+            for i in 0..(30 * scale) {
+                let pats = gen::random_pats(&mut rg, 6, 6);
+                let mk = f.mks[rg.gen_range(0..f.mks.len())];
+                let mut c = Ctx::new(&pats, mk, REPRS_ALL[i % REPRS_ALL.len()]);
+                c.ci = rg.gen_range(0..3) == 0;
+                c.pre = rg.gen_bool(0.7);
+                let hays: Vec<Vec<u8>> =
+                    (0..6).map(|_| gen::random_hay(&mut rg, &pats, c.ci, 40)).collect();
+                with_ctx(&mut out, &mut stats, &c, &mut |r, s| {
+                    for h in &hays {
+                        for _ in 0..3 {
+                            let sp = gen::random_span(&mut rg, h.len());
+                            span_triple(r, s, &c, h, sp, &mut rg);
+                        }
+                    }
+                });
+            }
+        }
+        // ASCII case-insensitivity (C11): mixed-case letters, boundary bytes,
+        // non-ASCII bytes
+        "ci" => {
+            let mut rg = gen::rng(seed, 0xCA11_0006);
+            let hays = gen::all_hays(b"aAb@", 3);
+            for (pi, pats) in gen::family(b"aAb", 2, 2).iter().enumerate() {
+                if scale < 2 && pi % 2 == 1 {
+                    continue;
+                }
+                for &mk in &f.mks {
+                    let mut c = Ctx::new(pats, mk, ["nc", "top-auto", "c", "dfa"][pi % 4]);
+                    c.ci = true;
+                    with_ctx(&mut out, &mut stats, &c, &mut |r, s| {
+                        for h in &hays {
+                            all_flavours(r, s, &c, f, h, (0, h.len()));
+                        }
+                    });
+                }
+            }
+            let pools: [&[u8]; 4] = [b"aAbB", b"aA@[`{zZ", &[b'k', b'K', 0xCB, 0xEB, 0x4B ^ 0x80], b"xXyY01"];
+            for i in 0..(40 * scale) {
+                let pool = pools[i % pools.len()];
+                let pats = gen::random_pats_over(&mut rg, pool, 6, 5, true);
+                let mk = f.mks[rg.gen_range(0..f.mks.len())];
+                let mut c = Ctx::new(&pats, mk, REPRS_ALL[i % REPRS_ALL.len()]);
+                c.ci = true;
+                c.pre = rg.gen_bool(0.6);
+                c.bc = rg.gen_bool(0.6);
+                let mut hays: Vec<Vec<u8>> =
+                    (0..10).map(|_| gen::random_hay(&mut rg, &pats, true, 40)).collect();
+                // plus haystacks drawn from the pool and its bit-5 neighbours
+                for _ in 0..6 {
+                    let n = rg.gen_range(0..30);
+                    hays.push((0..n).map(|_| { let b = pool[rg.gen_range(0..pool.len())]; if rg.gen_bool(0.3) { b ^ 0x20 } else { b } }).collect());
+                }
+                with_ctx(&mut out, &mut stats, &c, &mut |r, s| {
+                    for h in &hays {
+                        let sp = gen::random_span(&mut rg, h.len());
+                        all_flavours(r, s, &c, f, h, sp);
+                        all_flavours(r, s, &c, f, h, (0, h.len()));
+                    }
+                });
+            }
+        }
         other => panic!("unknown calls family {}", other),
     }
     out.finish();
